@@ -296,6 +296,11 @@ def field_of_dtype(name, fdt):
             got = {"kind": "struct", "sub": [int(x) for x in fdt.shape], "order": "|", "inner": inner_of(base)}
         else:
             kind, order = kind_order(base)
+            if not _known_kind(kind):
+                # a type outside the catalogue (raw void bytes V<n> where a record was asked for, S0, f16 ...): only a
+                # wrong result has one.  It is projected to a token of its own, so that TLC rejects the step that made
+                # it (field type differs) and judges later steps of the chain on it like on any other opaque kind
+                kind = "other:" + base.str
             got = {"kind": kind, "sub": [int(x) for x in fdt.shape], "order": order, "inner": []}
         got["known"] = _all_known(got)
         if len(_FOD) > 20000:
@@ -496,12 +501,59 @@ def strided(x):
     return view
 
 
+def frozen(x):
+    """the same array handed over READ-ONLY (a view with the writeable flag off: what a caller holding a memory map opened
+    for reading, or a table it wants protected, passes).  The operations that yield a NEW array, the source of a copy and
+    the array that is split have no business writing to their input"""
+    v = x.view()
+    v.setflags(write=False)
+    return v
+
+
 def snapshot(xs):
     return [(x, x.tobytes(), x.dtype, x.shape) for x in xs]
 
 
 def unchanged(snap):
     return all(x.tobytes() == b and (x.dtype is d or x.dtype == d) and x.shape == s for x, b, d, s in snap)
+
+
+def is_table(x):
+    return isinstance(x, np.ndarray) and x.dtype.names is not None
+
+
+def shares(res, xs):
+    """does the result share memory with one of the inputs?  (a result that is no array shares nothing - its
+    projection is already not the documented one)"""
+    return isinstance(res, np.ndarray) and any(np.shares_memory(res, x) for x in xs)
+
+
+def column_holding(cur, f, tok, uni, prefer=None):
+    """ALIASING between arguments: token `tok` names the data of a field of the table itself (tokens A.x .. G.x).  If a
+    column of the real current array has the type of f and holds that data, the column ITSELF (a view of the table) is
+    what the caller hands over as per-field array; None otherwise (the chain has moved on: the same data in a fresh array)"""
+    if "." not in tok or tok in _ARRAY_DEFAULTS or not is_table(cur):
+        return None
+    want = {k: f[k] for k in ("kind", "sub", "order", "inner")}
+    names = list(cur.dtype.names)
+    for n in ([prefer] if prefer in names else []) + names:
+        g = field_of_dtype(n, cur.dtype.fields[n][0])
+        if {k: g[k] for k in want} == want and _all_known(g) and uni.token_of(cur[n], g) == tok:
+            return cur[n]
+    return None
+
+
+def value_for(tok, f, shape, as_numpy=False):
+    """the value handed over for token `tok` and the REAL field type f the current array has.  On a correct tree that
+    type is one of the registered ones; a field of a kind outside the catalogue (or a flag field of another size) can
+    only be left over from an earlier wrong result of the chain - already rejected by TLC -: it is handed the plain 1
+    that a name the array does not have gets, never a machinery error"""
+    if not _all_known(f):
+        return 1
+    try:
+        return default_value(tok, f, shape, as_numpy)
+    except Unusable:
+        return 1
 
 
 def exec_op(cur, op, pool, uni):
@@ -515,6 +567,7 @@ def exec_op(cur, op, pool, uni):
     var = _op_variant(op)
     if var % 3 == 0:
         cur = strided(cur)          # "any memory layout": same values in a non-contiguous array
+    given = frozen(cur) if (var // 6) % 2 == 0 else cur       # ... every other time read-only where only read
     try:
         with warnings.catch_warnings():
             warnings.simplefilter("ignore")
@@ -522,12 +575,12 @@ def exec_op(cur, op, pool, uni):
                 snap = snapshot([cur])
                 arg = names_arg(op["names"], op["form"])
                 if k == "extract":
-                    res = nu.extract_fields(cur, arg, strict=op["strict"]) if not op["strict"] or len(op["names"]) % 2 else nu.extract_fields(cur, arg)
+                    res = nu.extract_fields(given, arg, strict=op["strict"]) if not op["strict"] or len(op["names"]) % 2 else nu.extract_fields(given, arg)
                 elif k == "remove":
-                    res = nu.remove_fields(cur, arg)
+                    res = nu.remove_fields(given, arg)
                 else:
-                    res = nu.reorder_fields(cur, arg, strict=op["strict"])
-                obs.update(arr=project(res, uni), fresh=not np.shares_memory(res, cur), frame=unchanged(snap))
+                    res = nu.reorder_fields(given, arg, strict=op["strict"])
+                obs.update(arr=project(res, uni), fresh=not shares(res, [cur]), frame=unchanged(snap))
                 nxt = res
             elif k == "add":
                 snap = snapshot([cur])
@@ -535,31 +588,41 @@ def exec_op(cur, op, pool, uni):
                 if op["form"] == "dtype":
                     d = np.dtype(d)
                 if all(f["tok"] == "zero" for f in op["add"]):
-                    res = nu.add_fields(cur, d)
+                    res = nu.add_fields(given, d)
                 else:
                     dv = [default_value(f["tok"], f, cur.shape, op["form"] == "descr_np") for f in op["add"]]
-                    res = nu.add_fields(cur, d, defaults=dv[0] if len(dv) == 1 and op["form"] == "dtype" else dv)
-                obs.update(arr=project(res, uni), fresh=not np.shares_memory(res, cur), frame=unchanged(snap))
+                    for i, f in enumerate(op["add"]):
+                        col = column_holding(given, f, f["tok"], uni)
+                        if col is not None:
+                            dv[i] = col                     # the default of the new field is a column of the table
+                    res = nu.add_fields(given, d, defaults=dv[0] if len(dv) == 1 and op["form"] == "dtype" else dv)
+                obs.update(arr=project(res, uni), fresh=not shares(res, [cur]), frame=unchanged(snap))
                 nxt = res
             elif k == "combine":
-                lst = [cur if o["id"] == "cur" else pool[o["id"]] for o in op["others"]]
+                # (a list of one array may be handed back as it is: the chain goes on with it, so it stays writable)
+                lst = [(given if len(op["others"]) > 1 else cur) if o["id"] == "cur" else pool[o["id"]] for o in op["others"]]
                 snap = snapshot(lst)
                 res = nu.combine_fields(tuple(lst) if op["form"] == "tuple" else lst)
-                obs.update(arr=project(res, uni), fresh=not any(np.shares_memory(res, x) for x in lst), frame=unchanged(snap))
+                obs.update(arr=project(res, uni), fresh=not shares(res, lst), frame=unchanged(snap))
                 nxt = res
             elif k == "copy":
                 src, dst = [cur if o["id"] == "cur" else pool[o["id"]] for o in op["others"]]
+                same = op["others"][0]["id"] == op["others"][1]["id"]        # source and destination are ONE object
                 if op["others"][1]["id"] != "cur":
                     dst = dst.copy()                     # the scenario's other arrays stay pristine
-                if (var // 3) % 2 == 0:
+                if (var // 3) % 2 == 0 and not same:
                     dst = strided(dst)                   # a destination that is a view (e.g. table[::2])
                 snap = snapshot([src])
-                nu.copy_fields(src, dst)
+                nu.copy_fields(given if op["others"][0]["id"] == "cur" and op["others"][1]["id"] != "cur" else src, dst)
                 obs.update(arr=project(dst, uni), frame=unchanged(snap))
                 nxt = dst
             elif k == "copy_by_name":
                 have = {n: field_of_dtype(n, cur.dtype.fields[n][0]) for n in cur.dtype.names}
-                vals = [default_value(t, have[n], cur.shape) if n in have else 1 for n, t in zip(op["names"], op["vals"])]
+                vals = [value_for(t, have[n], cur.shape) if n in have else 1 for n, t in zip(op["names"], op["vals"])]
+                for i, (n, t) in enumerate(zip(op["names"], op["vals"])):
+                    col = column_holding(cur, have[n], t, uni, prefer=n) if n in have else None
+                    if col is not None:
+                        vals[i] = col                       # the value is a column of the table (the one assigned to, or a twin)
                 if op["form"] == "scalar":
                     # (an array-valued default - the 8 flags of a bool field - would be taken for the sequence of values)
                     nu.copy_fields_by_name(cur, op["names"][0], [vals[0]] if isinstance(vals[0], np.ndarray) else vals[0])
@@ -571,9 +634,9 @@ def exec_op(cur, op, pool, uni):
             elif k == "split":
                 snap = snapshot([cur])
                 if op["form"] == "none":
-                    res = nu.split_fields(cur) if len(cur.dtype.names) % 2 else nu.split_fields(cur, getnames=True)[0]
+                    res = nu.split_fields(given) if len(cur.dtype.names) % 2 else nu.split_fields(given, getnames=True)[0]
                 else:
-                    res = nu.split_fields(cur, fields=names_arg(op["names"], op["form"]))
+                    res = nu.split_fields(given, fields=names_arg(op["names"], op["form"]))
                 obs.update(arr=project(cur, uni), views=[project_view(v, uni) for v in res], frame=unchanged(snap))
             else:
                 raise MachineryError("unknown operation %r" % k)
@@ -651,6 +714,8 @@ def run_chain(scen, ops, _memo={}):
         pre = project(cur, uni)
         obs, exc, cur = exec_op(cur, op, pool, uni)
         steps.append((pre, op, obs, exc))
+        if not is_table(cur):
+            break        # a result that is no structured array (projected to shape [-1], rejected by TLC): nothing to go on with
     return steps
 
 
@@ -817,6 +882,7 @@ def seeded_chain(rng):
                  "fields": [_fld("g", RT(), "G.g")] + [dict(_flip(f), tok="G." + f["name"]) for f in common]}
     style = rng.randrange(3)
     scen = {"init": init, "pool": pool}
+    tok0 = {f["name"]: f["tok"] for f in init["fields"]}
     have = list(names[:n])           # the harness' own book-keeping of the names, only to choose plausible arguments
     ops = []
     for _ in range(rng.randrange(2, 7)):
@@ -835,6 +901,8 @@ def seeded_chain(rng):
                 op["form"] = "none"
         elif k == "copy_by_name":
             op.update(names=pick[:3], vals=[rng.choice(["d1", "d2", "d3", "d4", "d5", "H.p"]) for _ in pick[:3]])
+            if rng.random() < 0.2:             # aliasing: the value IS the column it is assigned to (if it still holds its data)
+                op["vals"] = [tok0.get(nm, v) for nm, v in zip(op["names"], op["vals"])]
             if len(op["names"]) == 1 and rng.random() < 0.5:
                 op["form"] = "scalar"
         elif k == "add":
@@ -845,6 +913,8 @@ def seeded_chain(rng):
             op.update(add=[_fld(nm, RT(), rng.choice(["d1", "d2", "d3", "d4", "d4", "d5", "d5", _ARRAY_DEFAULTS[i]]) if dflt else "zero")
                            for i, nm in enumerate(newn)],
                       form=rng.choice(["descr", "dtype", "descr_np"]))
+            if dflt and rng.random() < 0.25:   # aliasing: the default of a new field is a column of the table (same type)
+                op["add"][-1] = dict(rng.choice(init["fields"]), name=op["add"][-1]["name"])
         elif k == "combine":
             ids = rng.sample(["B", "C", "F"], rng.randrange(0, 4))
             if rng.random() < 0.15:
@@ -970,8 +1040,21 @@ def run(ctx):
     ctx.nontrivial_n += len(steps.recs)
     ctx.traces_chains = nbeh + nseed
     # 5. binding self-test: corrupted observations must be rejected with the right clause
-    probe = next(r for r in steps.recs if r["op"]["op"] == "reorder" and r["op"]["form"] == "list" and r["obs"]["err"] == "none"
-                 and len(r["obs"]["arr"]["fields"]) >= 2 and any(f["order"] == ">" for f in r["obs"]["arr"]["fields"]))
+    # (the probes take the input projection and the operation of an observed step, never its observation: the tree under
+    # test may be broken, the self-test of the machinery must not depend on it.  The clean observation is written down
+    # here and TLC must accept it - corruptions 7 and 16)
+    def clean(fields):
+        return {"err": "none", "arr": {"shape": probe_pre["shape"], "fields": fields}, "views": [], "fresh": True, "frame": True}
+
+    def plain_request(r):
+        have = [f["name"] for f in r["pre"]["fields"]]
+        return r["op"]["form"] == "list" and len(set(r["op"]["names"])) == len(r["op"]["names"]) and all(n in have for n in r["op"]["names"]) \
+            and all(f["tok"] != "?" and _all_known(f) for f in r["pre"]["fields"])       # (not downstream of a wrong result)
+    probe = next(r for r in steps.recs if r["op"]["op"] == "reorder" and plain_request(r)
+                 and len(r["pre"]["fields"]) >= 2 and any(f["order"] == ">" for f in r["pre"]["fields"]))
+    probe_pre = probe["pre"]
+    probe = dict(probe, obs=clean([f for n in probe["op"]["names"] for f in probe_pre["fields"] if f["name"] == n] +
+                                  [f for f in probe_pre["fields"] if f["name"] not in probe["op"]["names"]]))
 
     def corrupt(fn):
         o = json.loads(json.dumps(probe["obs"]))
@@ -990,9 +1073,10 @@ def run(ctx):
     # a retained NESTED field: an inner field dropped / renamed to its outer twin / byte-swapped, data of one leaf lost
     def is_nested(f):
         return f["kind"] == "struct" and len(f["inner"]) >= 2
-    probe2 = next(r for r in steps.recs if r["op"]["op"] in ("remove", "extract") and r["op"]["form"] == "list" and r["obs"]["err"] == "none"
-                  and any(is_nested(f) for f in r["obs"]["arr"]["fields"])
-                  and len(set(r["op"]["names"])) == len(r["op"]["names"]))
+    probe2 = next(r for r in steps.recs if r["op"]["op"] == "remove" and plain_request(r)
+                  and any(is_nested(f) and f["name"] not in r["op"]["names"] for f in r["pre"]["fields"]))
+    probe_pre = probe2["pre"]
+    probe2 = dict(probe2, obs=clean([f for f in probe_pre["fields"] if f["name"] not in probe2["op"]["names"]]))
     k2 = next(i for i, f in enumerate(probe2["obs"]["arr"]["fields"]) if is_nested(f))
 
     def corrupt2(fn):
@@ -1016,7 +1100,7 @@ def run(ctx):
     bads.update(bads2)
     for i, (_, want) in bads.items():
         got = [c.split(":")[0] for c in rej.get(i, [])]
-        if want is not None and got != [want]:
+        if got != ([want] if want is not None else []):
             raise MachineryError("binding self-test failed: corruption %d gave %s, expected %s" % (i, got, want))
     # and the projection itself: one flipped byte in a real field must lose its token
     scen0 = steps.refs[0]["scen"]
